@@ -219,6 +219,33 @@ def check_proofs(ctx, props_rel, jobs=16, extra_targets=(), const_parts=None):
             ctx.infra_problem('constants extractor: ' + p)
     ctx.targets = [props_rel + 'o'] + list(extra_targets)
     ok, log = build.make(jobs, targets=ctx.targets)
+    good = os.path.join(GEN, 'Consts.v.good')
+    relevant = [p for p in problems if const_parts is None or p.split(':')[0] in const_parts]
+    if ok and not problems and 'PJPLAN_REPO' not in os.environ:
+        # remembered for the day the constants can no longer be extracted (see below)
+        try:
+            import shutil
+            shutil.copyfile(os.path.join(GEN, 'Consts.v'), good)
+        except OSError:
+            pass
+    fallback_log = None
+    if (not ok or relevant) and os.path.exists(good):
+        # The constants could not be extracted from the source as it is now, or the development does not build with
+        # them: the proof obligation is BROKEN (reported below).  The search for a concrete failing input goes on
+        # with the model built from the constants of the last run that had no such problem.
+        import shutil
+        cur = os.path.join(GEN, 'Consts.v')
+        with open(cur, encoding='utf-8') as f:
+            broken_text = f.read()
+        with open(good, encoding='utf-8') as f:
+            good_text = f.read()
+        if broken_text != good_text:
+            build.write_if_changed(cur, good_text)
+            ok2, log2 = build.make(jobs, targets=ctx.targets)
+            ctx.fallback_consts = ok2
+            fallback_log = log
+            if not ok2:
+                build.write_if_changed(cur, broken_text)
     cone = build.dep_cone(props_rel)
     hits = build.forbidden_scan(cone)
     names = []
@@ -241,7 +268,15 @@ def check_proofs(ctx, props_rel, jobs=16, extra_targets=(), const_parts=None):
         m = re.findall(r'File "\./([^"]+)", line (\d+)[^\n]*\n(?:[^\n]*\n){0,6}', log)
         ctx.proof['ok'] = False
         ctx.proof['error'] = 'make failed: ' + (log[-1500:])
+        if getattr(ctx, 'fallback_consts', False):
+            ctx.proof['error'] += '\n(the search for a failing input continues with the constants of the last good build)'
         ctx.proof['broken_files'] = sorted(set(x[0] for x in m)) or open_files
+        return
+    if getattr(ctx, 'fallback_consts', False):
+        ctx.proof['ok'] = False
+        ctx.proof['error'] = ('constants could not be extracted from the source / do not fit the model: %s; the search for a '
+                              'failing input continues with the constants of the last good build' % '; '.join(relevant or problems))
+        ctx.proof['broken_files'] = ['gen/Consts.v']
         return
     if hits:
         ctx.proof['ok'] = False
